@@ -63,6 +63,13 @@ for m, msg in (("to_receiver", "is not a receiver"), ("to_sender", "is not a sen
                    "Not repaired: to_sender/to_receiver are infallible in every backend's API (macOS/Windows cannot be compiled here)." % msg,
                    "findings_demo: `cargo run --features inproc -- kind` -> PANICKED; without the feature -> Ok"))
 
+# ---- C12
+F.append(open_("C12", "CLOSED-ORIGIN", "CLOSED-ORIGIN:platform::unix::recv:libc::recv==0",
+               "recv() reports UnixError::ChannelClosed when the per-message follow-up socket hits EOF: a sender process killed in the middle of a multi-fragment "
+               "message makes a plain receiver report Disconnected, and makes a receiver set deregister and close the member (a router drops the route), although "
+               "another sender handle survives and the channel is still usable. Not repaired: a correct repair needs a distinct error and a policy for an aborted "
+               "message in OsIpcReceiverSet::select and the router (today any other error aborts select and stops the router thread).",
+               "findings_demo: `cargo run -- crash` -> recv = Err(Disconnected) while the parent's sender still sends and the next recv returns its message"))
 # ---- C15
 for role in ("single-packet", "fragmented"):
     F.append(fixed("C15", "FD-BOUND", "FD-BOUND:platform::unix::OsIpcSender::send:unbounded-descriptor-count:" + role, "f0938f2",
